@@ -78,7 +78,7 @@ NOTES = {
     "C15_d2": "C15_d re-expressed on the tree after fix bec439a (written by the verifier, demo unchanged).",
     "C01_c": "manifests only when the peer's PAKE is replayed after a reconnect: caught by C14 (internal NoTransition), C09 and C02; "
              "C01's own world has no connection loss.",
-    "C18_e": "depended on the defect repaired by fix c4870d9 (its demo reaches Boss.error() during closing through the "
+    "C18_e": "depended on the defect repaired by fix 8eac7fb (its demo reaches Boss.error() during closing through the "
              "`assert self._key` failure): on the repaired tree the demo no longer fails with the patch and no schedule of the "
              "environment reaches the changed row — not expected to be caught.",
     "C04_a": "transit replay acceptance: caught by C06 (the channel property C04 builds on).",
